@@ -171,6 +171,21 @@ prop("C11", "exploration",
       {"test": "TestC11Exhaustive", "quick": {"checks": 1, "shards": 1, "timeout": 600},
        "thorough": {"checks": 1, "shards": 1, "timeout": 3000}}])
 
+prop("C19", "exploration",
+     "cases = generated TREES of EVM and Aspect frames (depth <= 5, width <= 3; frames of all call kinds, creates, "
+     "self-destructs, precompile targets; per Call frame 0-3 Aspect executions on the pre and on the post join point, the last "
+     "one possibly failing; 0-2 EVM calls inside an Aspect execution, recursively with their own join points; optional "
+     "pre-/post-transaction Aspects) x tracer (callTracer: onlyTopCall, withLog; flatCallTracer: convertParityErrors, "
+     "includePrecompiles). The tree is linearised into the callback sequence the EVM emits (tx start, [pre-tx aspects], start, "
+     "pre aspects, calls, post aspects, end, [post-tx aspects], tx end) and fed to the real tracer; the decoded result must "
+     "not panic and must equal the tree: every frame exactly once under its issuer (frame or Aspect execution), every Aspect "
+     "execution with its own gasUsed/output/error; flat form: subtraces == emitted children, trace addresses unique, "
+     "prefix-closed and in the order pre join points, calls, post join points, precompile calls pruned where they happened. "
+     "Each frame carries a unique gas value by which it is recognised. Non-trivial = >= 2 Aspects on one join point or a "
+     "call inside an Aspect.",
+     [{"test": "TestC19", "quick": {"checks": 30000, "shards": 2, "timeout": 600},
+       "thorough": {"checks": 300000, "shards": 16, "timeout": 3000}}])
+
 # ---------------------------------------------------------------------------
 # Text for MANIFEST.json (gen_manifest.py)
 
@@ -269,6 +284,16 @@ MANIFEST_TEXT = {
         "level_note": "Trusted: BlockContext.Transfer wrapper as observation point; call-tree indices from the independent "
                       "call-attempt log.",
         "technique": "property-based testing of a history invariant against wrapper observations (rapid)",
+    },
+    "C19": {
+        "level_text": "Model-based property testing of the two Aspect-aware call tracers: generated frame trees are linearised "
+                      "into well-nested callback streams; the tracer output is decoded and compared with the tree.",
+        "design_ref": "DESIGN.md section 4, C19",
+        "level_note": "Synthetic streams (the tracers are driven through their exported callbacks); LOG capture is not part of "
+                      "the streams (no exported constructor for vm.Stack). With onlyTopCall only the top frame is compared. "
+                      "Calls issued by pre-transaction Aspects never target precompiles (pruning before CaptureStart is "
+                      "not determined by the statement).",
+        "technique": "model-based property testing: generated frame trees vs decoded tracer output (rapid)",
     },
     "C15": {
         "level_text": "Model-based property testing: executable reference models of EIP-1153 and EIP-5656 (written from the "
